@@ -185,13 +185,3 @@ Proof.
   rewrite (array_get_arr els i Hwf Hlen Hi). unfold rmap. cbn [bind].
   destruct (nth_error els (Z.to_nat i)); reflexivity.
 Qed.
-
-(* ------------------------------------------------------------------ the u16 length field (F-C32-1) *)
-Lemma long_string_refuted_l :
-  exists j, wf_json false j = false /\ blen (encode_value j) <= 2 ^ 24 /\
-            tree_of_view (S (depth j)) (encode_value j) = Ok (JArr [JStr []]) /\ canon j <> JArr [JStr []].
-Proof.
-  exists (JArr [JStr (repeat 97 (Z.to_nat 65536))]).
-  split; [vm_compute; reflexivity|]. split; [vm_compute; intros H; discriminate H|]. split; [vm_compute; reflexivity|].
-  cbn [canon map]. intros H. inversion H.
-Qed.
